@@ -18,7 +18,27 @@ variable {α : Type} [Field α] [LinearOrder α] [IsStrictOrderedRing α]
 /-- outside the guard branch the weights sum to one … -/
 theorem imtlg_sum_one (J : Mat α) (d : Vec α) (guard : α) (hg : 0 ≤ guard) (w : Vec α)
     (h : imtlgWeights J d guard = some w) (hnz : ∃ x ∈ w, x ≠ 0) : w.sum = 1 := by
-  sorry
+  have _ := hg
+  unfold imtlgWeights at h
+  simp only at h
+  split at h
+  · simp at h
+  · rename_i v _
+    split at h
+    · split at h
+      · rw [← Option.some.inj h] at hnz
+        exact absurd hnz (zeros_no_nonzero _)
+      · rw [← Option.some.inj h] at hnz ⊢
+        have hs : v.sum ≠ 0 := by
+          intro h0
+          obtain ⟨x, hx, hx0⟩ := hnz
+          rw [h0] at hx
+          simp at hx
+          exact hx0 hx.2
+        simp only [div_eq_mul_inv]
+        rw [List.sum_map_mul_right]
+        simp [hs]
+    · simp at h
 
 /-- … and the result has the same projection onto the direction of every row: `⟨j_i, A(J)⟩ / |j_i|` is
     the same number for all `i` (`d_i = |j_i|`) -/
@@ -26,13 +46,27 @@ theorem imtlg_equal_projections (J : Mat α) (m n : Nat) (hJ : MatWF J m n) (d :
     (hd : d.length = m) (guard : α) (hg : 0 ≤ guard) (w : Vec α)
     (h : imtlgWeights J d guard = some w) (hnz : ∃ x ∈ w, x ≠ 0) :
     ∃ κ : α, ∀ i, i < m → dot (J.getD i []) (combine n J w) = κ * d.getD i 0 := by
-  sorry
+  have _ := hg
+  have _ := hd
+  unfold imtlgWeights at h
+  simp only at h
+  split at h
+  · simp at h
+  · rename_i v _
+    split at h
+    · rename_i hc
+      split at h
+      · rw [← Option.some.inj h] at hnz
+        exact absurd hnz (zeros_no_nonzero _)
+      · rw [← Option.some.inj h]
+        exact ⟨(v.sum)⁻¹, fun i hi => imtlg_proj J m n hJ d v hc _ i hi⟩
+    · simp at h
 
 /-- on the all-zero matrix every weighted aggregator (IMTL-G, Aligned-MTL, …) returns the zero vector,
     whatever weights it computes -/
 theorem zero_matrix_zero_vector (m n : Nat) (w : Vec α) :
     combine n (List.replicate m (zeros n : Vec α)) w = zeros n := by
-  sorry
+  exact combine_zero_matrix n m w
 
 /-! ### ConFIG -/
 
@@ -44,14 +78,41 @@ theorem config_cosines (J : Mat α) (m n : Nat) (hJ : MatWF J m n) (d w : Vec α
     (h : configVec J d w n = some x) (hx : ∃ c ∈ x, c ≠ 0) :
     ∃ t : α, 0 < t ∧ ∀ i, i < m →
       dot ((J.getD i []).map (· / d.getD i 0)) x = t * w.getD i 0 := by
-  sorry
+  unfold configVec at h
+  simp only at h
+  split at h
+  · simp at h
+  · rename_i y _
+    split at h
+    · rename_i hc
+      split at h
+      · rw [← Option.some.inj h] at hx
+        exact absurd hx (zeros_no_nonzero _)
+      · rename_i hbb
+        rw [← Option.some.inj h]
+        exact ⟨_, config_cosines_aux J m n hJ d w hd hw hdpos hwpos _ rfl y hc _ rfl hbb⟩
+    · simp at h
 
 /-- the length of the returned vector equals the sum of its projections on the rows:
     `|x| = Σ_i ⟨j_i, x/|x|⟩`, i.e. (multiplying by `|x|`, no square root) `⟨x, x⟩ = Σ_i ⟨j_i, x⟩` -/
 theorem config_length (J : Mat α) (m n : Nat) (hJ : MatWF J m n) (d w : Vec α) (hd : d.length = m)
     (hw : w.length = m) (x : Vec α) (h : configVec J d w n = some x) :
     dot x x = (J.map fun row => dot row x).sum := by
-  sorry
+  have _ := hJ
+  have _ := hd
+  have _ := hw
+  unfold configVec at h
+  simp only at h
+  split at h
+  · simp at h
+  · split at h
+    · split at h
+      · rw [← Option.some.inj h]
+        exact config_length_zero J n
+      · rename_i hbb
+        rw [← Option.some.inj h]
+        exact config_length_aux J _ hbb _ rfl
+    · simp at h
 
 /-- on the all-zero matrix (unit rows replaced by zeros as `nan_to_num` does) ConFIG returns zero;
     in the model: whenever `best` vanishes the output is the zero vector -/
@@ -59,7 +120,16 @@ theorem config_zero_best (J : Mat α) (d w : Vec α) (n : Nat) (x : Vec α)
     (h : configVec J d w n = some x)
     (hz : ∀ y, combine n (List.zipWith (fun row di => row.map (· / di)) J d) y = zeros n) :
     x = zeros n := by
-  sorry
+  unfold configVec at h
+  simp only at h
+  split at h
+  · simp at h
+  · split at h
+    · rw [hz] at h
+      split at h
+      · exact (Option.some.inj h).symm
+      · rw [← Option.some.inj h, smul_zeros]
+    · simp at h
 
 /-! ### Aligned-MTL -/
 
@@ -75,7 +145,16 @@ theorem aligned_balanced (J : Mat α) (m n : Nat) (hJ : MatWF J m n) (vecs : Mat
     (h₂ : alignedWeights J vecs sigma (oneHot m b) = some wb) :
     dot (combine n J wa) (combine n J wb) =
       if a = b then vmin sigma 1 * vmin sigma 1 else 0 := by
-  sorry
+  have hc := alignedCert_spec _ _ _ hcert
+  have hse : sigma.isEmpty = false := by
+    have hl : sigma.length = m := by rw [← hc.1]; exact hfull
+    cases sigma with
+    | nil => simp at hl; omega
+    | cons _ _ => rfl
+  unfold alignedWeights at h₁ h₂
+  simp only [hse, Bool.false_eq_true, if_false, hcert, if_true, gram_length, hJ.1] at h₁ h₂
+  rw [← Option.some.inj h₁, ← Option.some.inj h₂]
+  exact aligned_balanced_aux J m n hJ vecs sigma hfull hv hcert _ a b ha hb
 
 /-- the result is the preference-weighted combination of the re-balanced rows: the weights are linear in
     the preference vector -/
@@ -84,12 +163,25 @@ theorem aligned_linear_in_pref (J : Mat α) (vecs : Mat α) (sigma : Vec α) (m 
     (h₂ : w₂.length = m) (r₁ r₂ r : Vec α) (hs : sigma ≠ [])
     (e₁ : alignedWeights J vecs sigma w₁ = some r₁) (e₂ : alignedWeights J vecs sigma w₂ = some r₂)
     (e : alignedWeights J vecs sigma (vadd w₁ w₂) = some r) : r = vadd r₁ r₂ := by
-  sorry
+  have hse : sigma.isEmpty = false := by
+    cases sigma with
+    | nil => exact absurd rfl hs
+    | cons _ _ => rfl
+  unfold alignedWeights at e₁ e₂ e
+  simp only [hse, Bool.false_eq_true, if_false, gram_length, hJ] at e₁ e₂ e
+  split at e₁
+  · rename_i hc
+    simp only [hc, if_true] at e₂ e
+    obtain ⟨hl, _⟩ := alignedCert_spec _ _ _ hc
+    rw [← Option.some.inj e₁, ← Option.some.inj e₂, ← Option.some.inj e]
+    exact alignedB_add vecs sigma m hl hv _ w₁ w₂ (by omega)
+  · simp at e₁
 
 /-- rank 0 (all-zero matrix): identity transformation, hence the zero vector -/
 theorem aligned_zero_matrix (m n : Nat) (w : Vec α) (hw : w.length = m) :
     alignedWeights (List.replicate m (zeros n : Vec α)) [] [] w = some w ∧
     combine n (List.replicate m (zeros n : Vec α)) w = zeros n := by
-  sorry
+  have _ := hw
+  exact ⟨by simp [alignedWeights], combine_zero_matrix n m w⟩
 
 end Tjd.Props.C17
